@@ -257,6 +257,8 @@ func prepare(race bool) (*scratch, error) {
 	if race {
 		args = append(args, "-race")
 		if ov, note := makeOverlay(dir); ov != "" {
+			// (the tag tells the worker that package sync has the switch the overlay adds, see makeOverlay)
+			args[3] = "verif,verifpool"
 			args = append(args, "-overlay", ov)
 		} else {
 			s.note = append(s.note, "standard-library overlay not applied: "+note)
@@ -290,8 +292,11 @@ func makeOverlay(dir string) (string, string) {
 	if strings.Count(p, oldPut) != 1 || strings.Count(p, oldGet) != 1 {
 		return "", "sync/pool.go does not match the expected text"
 	}
-	p = strings.Replace(p, oldPut, oldPut+"\tif race.Enabled {\n\t\treturn // verif overlay: no pooling under the race detector\n\t}\n", 1)
-	p = strings.Replace(p, oldGet, oldGet+"\tif race.Enabled {\n\t\tif p.New != nil {\n\t\t\treturn p.New()\n\t\t}\n\t\treturn nil\n\t}\n", 1)
+	// (switchable: a run that draws "real pooling" sets VerifPooling and gets sync.Pool as shipped - a library that
+	// hands a pooled object back too early is only seen with pooling on, a race hidden by the pool's own
+	// happens-before edges only with pooling off; the worlds are split between the two)
+	p = strings.Replace(p, oldPut, "// VerifPooling is added by the verif overlay: false means no pooling under the race detector.\nvar VerifPooling bool\n\n"+oldPut+"\tif race.Enabled && !VerifPooling {\n\t\treturn // verif overlay: no pooling under the race detector\n\t}\n", 1)
+	p = strings.Replace(p, oldGet, oldGet+"\tif race.Enabled && !VerifPooling {\n\t\tif p.New != nil {\n\t\t\treturn p.New()\n\t\t}\n\t\treturn nil\n\t}\n", 1)
 	pf := filepath.Join(dir, "overlay_pool.go")
 	if err := os.WriteFile(pf, []byte(p), 0o644); err != nil {
 		return "", err.Error()
